@@ -42,7 +42,7 @@ func (P) Engine() string { return "E1+E2" }
 func (P) Describe() harness.Description {
 	return harness.Description{
 		MustHit: []string{"value_readmitted_after_exit", "concurrent_rejections"},
-		Level: "exploration",
+		Level:   "exploration",
 		Rule: "case = (1-2 resources, 1-2 hotspot concurrency rules per resource selecting the value by index, negative index or attachment key, thresholds 0-3 with specific-item tables; 10-60 ops: entries with argument lists / attachments over a small value alphabet (int, string, bool, float, struct), exits in any order, ticks; seeded pool reuse). " +
 			"E1: admit iff for every rule live(v) < T(v); blocked => hot-parameter block with that rule; after every op each per-value counter (read through an overlay accessor) == live entries of that value and every live entry's Input.Args is what its caller passed. " +
 			"E2 (30%): 2-4 callers; per-value in-flight <= T+(k-1); counters all zero at quiescence. non-trivial = a value was blocked at its cap and admitted again after an exit while other values were in flight; distinct = hash(config, ops[, schedule])",
